@@ -2,6 +2,7 @@ import Ledger.Sql.Session
 import Ledger.Sql.Decode
 import Ledger.Generated.Schema
 import Ledger.Driver.Core
+import Ledger.Driver.HistH
 
 /-!
 `ldriver_sql` (= `lpg`): LeanPG, the modelled PostgreSQL, as a JSON line server
@@ -95,7 +96,10 @@ def handle (w : World) (j : Json) : World × Json :=
     | other => fatal s!"unknown request kind {other}"
 
 /-- correspondence handlers of the Sql area (added by the property builders) -/
-def sqlHandlers : List (String × Ledger.Driver.Handler) := []
+def sqlHandlers : List (String × Ledger.Driver.Handler) :=
+  -- `hist` / `histself`: history + ledger snapshot vs. the Spec (Ledger/Spec/README.md); used by the
+  -- `sqlhist` workload, whose snapshots come from the real store running on this very LeanPG
+  Ledger.Driver.histHandlers
 
 def verdictLine (j : Json) (i : Nat) : Json :=
   let res : Except String Ledger.Driver.Verdict := do
